@@ -369,8 +369,25 @@ def overrides(ctx, P):
             if isinstance(x, ast.ListComp) and isinstance(x.elt, ast.Call):
                 return [unparse(y).replace(" ", "") for y in x.elt.args[:2]], unparse(x.generators[0].iter).replace(" ", ""), unparse(x.generators[0].target), (unparse(x.elt.args[2]) if len(x.elt.args) > 2 else "?")
         return None
-    sa, sb = shape(a) if a else None, shape(b) if b else None
+    def ids(sh):
+        # the identifiers handed out: `f(self, i + 1, ..) for i in range(N)` and `f(self, k, ..) for k in range(1, N + 1)` both give 1..N
+        if not sh:
+            return sh
+        (recv, idx), it, var, start = sh
+        import re as _re
+        m1 = _re.fullmatch(r"range\((.+)\)", it)
+        if m1 and idx in (var + "+1", "1+" + var) and "," not in m1.group(1):
+            return (recv, "1..", m1.group(1))
+        m2 = _re.fullmatch(r"range\(1,(.+)\)", it)
+        if m2 and idx == var and (m2.group(1).endswith("+1") or m2.group(1).startswith("1+")):
+            n_ = m2.group(1)[:-2] if m2.group(1).endswith("+1") else m2.group(1)[2:]
+            return (recv, "1..", n_)
+        return (recv, idx, it, var)
+    sa, sb = shape(rules.temporaries_free(a)) if a else None, shape(rules.temporaries_free(b)) if b else None
     ob.ok("create_starting_servers", "%s vs %s" % (sa, sb))
+    sa, sb = (ids(sa), sa[3]) if sa else None, (ids(sb), sb[3]) if sb else None
+    if sa and sb and sa[0] == sb[0]:
+        sa, sb = (sa[0], "", "", sa[1]), (sb[0], "", "", sb[1])
     if not sa or not sb or sa[:3] != sb[:3]:
         ctx.violation(ob, "R12.override", "ExactNode.create_starting_servers", str(sa), "servers-differ", "the exact override must build the same (node, id) servers over range(self.c) as Node.create_starting_servers", loc(a) if a else "")
     elif sa[3].replace('"', "'") not in ("Decimal('0.0')", "Decimal('0')"):
